@@ -310,6 +310,11 @@ pub fn supervise(args: &[String], cmd: &str, stall_secs: u64) {
             Some(st) if st.success() => break,
             other => {
                 let kind = if other.is_none() { "timeout" } else { "abort" };
+                // a worker killed in the middle of a write leaves a partial last line: cut it off
+                if let Ok(bytes) = std::fs::read(&out_path) {
+                    let keep = bytes.iter().rposition(|b| *b == b'\n').map(|p| p + 1).unwrap_or(0);
+                    if keep != bytes.len() { let _ = std::fs::write(&out_path, &bytes[..keep]); }
+                }
                 let mut f = std::fs::OpenOptions::new().append(true).create(true).open(&out_path).unwrap();
                 writeln!(f, "{}", json!({"ev":"Incident","id":format!("item{done}"),"item":done,"kind":kind,"msg":format!("{other:?}")})).unwrap();
                 incidents += 1;
@@ -358,7 +363,7 @@ fn enc_record(ctx0: &Context, sys: &TransitionSystem, sid: u64, start: u64, k: u
     let _ = std::fs::remove_file(&replay_path);
     let script = match smt::script(&text) { Ok(c) => json!({"ok":1,"cmds":c,"err":""}), Err(e) => json!({"ok":0,"cmds":[],"err":e}) };
     let (kind, msg, map) = match res { Ok(Ok(m)) => ("ok", String::new(), m), Ok(Err(e)) => ("err", e, vec![]), Err((loc, m)) => ("panic", format!("{loc}|{m}"), vec![]) };
-    json!({"ev":"Enc","id":format!("s{sid}:{start}+{k}"),"sid":sid,"start":start,"k":k,"outcome":{"kind":kind,"msg":msg},"sys":export_system(ctx0, sys, false),"script":script,"map":map,"state0":state0(ctx0, sys),
+    json!({"ev":"Enc","id":format!("s{sid}:{start}+{k}"),"sid":sid,"start":start,"k":k,"outcome":{"kind":kind,"msg":msg},"sys":export_system(ctx0, sys, false),"script":script,"map":map,"state0":state0(ctx0, sys),"check_faith":if sys.states.iter().all(|s| s.next.is_some()) {1} else {0},
            "text":text.lines().take(60).collect::<Vec<_>>()})
 }
 
@@ -366,7 +371,8 @@ fn enc_record(ctx0: &Context, sys: &TransitionSystem, sid: u64, start: u64, k: u
 fn gen_enc_sys(ctx: &mut Context, rng: &mut SmallRng, k: u64) -> TransitionSystem {
     if k % 2 == 0 {
         let mut cfg = SysCfg::tiny();
-        cfg.max_bits = 5; cfg.max_inputs = 1; cfg.max_input_w = 2; cfg.all_next = true; cfg.arrays = k % 6 == 0;
+        // every fourth system may contain states without a next function (script well-formedness only)
+        cfg.max_bits = 5; cfg.max_inputs = 1; cfg.max_input_w = 2; cfg.all_next = k % 4 != 0; cfg.arrays = k % 6 == 0;
         return gen_sys(ctx, rng, &cfg, "").sys;
     }
     let mut sys = TransitionSystem::new(format!("share{k}"));
